@@ -78,7 +78,7 @@ def run(ctx) -> None:
     r04_3(ctx)
     r04_4(ctx)
     r04_5(ctx)
-    ctx.floor("iterable_params", 30)
+    ctx.floor("iterable_params", 20)
     ctx.floor("owning_handle_params", 3)
     ctx.floor("aclose_methods", 4)
 
